@@ -15,15 +15,23 @@ package peerstore
 //@   invariant ids_distinct: forall i int, j int :: 0 <= i && i < j && j < len(g.peerList) ==> g.peerList[i].id != g.peerList[j].id
 //@   invariant same_size: len(g.peerMap) == len(g.peerList)
 //@   invariant row: cap(g.peerList) == 0 || allocated(g.peerList)
+//@   invariant last_covers: forall i int :: 0 <= i && i < len(g.peerList) ==> g.peerList[i].expiresAt <= g.lastExpiresAt
 
 // Returns with the group's mutex held (its retry loop is not verified here).
+// Time passes while the caller waits for the group's lock (the ghost clock reading may advance),
+// and no announcement has recorded an expiry later than the current time plus the TTL (a rely on
+// the other threads: each computes its expiry from a clock reading taken under the group lock -
+// which is what UpdatePeer's own lock-invariant obligation last_covers checks for this thread).
 //@ func LocalStore.getOrInitLockedPeerGroup
 //@   trusted
 //@   acquires result.mu
+//@   modifies s.clk.now
 //@   ensures result != nil && allocated(result)
+//@   ensures time_passes: s.clk.now >= old(s.clk.now)
+//@   ensures expiry_bounded_by_clock: result.lastExpiresAt <= s.clk.now + s.config.TTL
 
 //@ func LocalStore.UpdatePeer
-//@   requires s != nil && p != nil
+//@   requires s != nil && p != nil && s.clk != nil && s.config.TTL >= 0
 //@   modifies *
 //@   ensures stored: result == nil
 //@   ensures recorded: (p.PeerID in g.peerMap) && g.peerMap[p.PeerID].id == p.PeerID && g.peerMap[p.PeerID].ip == p.IP && g.peerMap[p.PeerID].port == p.Port && g.peerMap[p.PeerID].complete == p.Complete && g.peerMap[p.PeerID].expiresAt == s.clk.now + s.config.TTL
@@ -51,6 +59,7 @@ package peerstore
 //@   loop 3 invariant fresh_kept: forall id core.PeerID :: entry(id in g.peerMap) && s.clk.now < entry(g.peerMap[id]).expiresAt ==> (id in g.peerMap) && g.peerMap[id] == entry(g.peerMap[id])
 //@   loop 3 invariant clock: s.clk.now >= entry(s.clk.now)
 //@   loop 3 invariant same_size: len(g.peerMap) == len(g.peerList)
+//@   loop 3 invariant last_covers: forall i int :: 0 <= i && i < len(g.peerList) ==> g.peerList[i].expiresAt <= g.lastExpiresAt
 //@   loop 3 invariant row: (cap(g.peerList) == 0 || allocated(g.peerList)) && 0 <= len(g.peerList) && len(g.peerList) <= cap(g.peerList)
 
 // Interface contract of peerstore.Store.GetPeers as used by the tracker server (assumed for the
@@ -60,3 +69,13 @@ package peerstore
 //@   ensures bounded: len(result0) <= max(n, 0) && 0 <= len(result0) && len(result0) <= cap(result0)
 //@   ensures elems: forall j int :: 0 <= j && j < len(result0) ==> result0[j] != nil && allocated(result0[j])
 //@   ensures row: cap(result0) == 0 || fresh(result0)
+
+// The group sweep forgets a whole group only when every announcement in it has expired: it
+// deletes under the group's write lock, after a clock reading later than lastExpiresAt, which
+// covers every entry (group invariant last_covers).
+//@ func LocalStore.cleanupExpiredPeerGroups
+//@   requires s != nil && s.clk != nil && s.peerGroups != nil
+//@   requires forall k core.InfoHash :: k in s.peerGroups ==> s.peerGroups[k] != nil && allocated(s.peerGroups[k])
+//@   modifies *
+//@   assert forgets_only_expired_groups: at builtin.delete#0 :: forall i int :: 0 <= i && i < len(g.peerList) ==> g.peerList[i].expiresAt < s.clk.now
+//@   loop 0 invariant groups: s.peerGroups == entry(s.peerGroups) && s.peerGroups != nil && s.clk == entry(s.clk) && s.clk != nil && (forall k core.InfoHash :: k in s.peerGroups ==> s.peerGroups[k] != nil && allocated(s.peerGroups[k]))
